@@ -32,6 +32,7 @@ def valve_monitor(chk):
     n = 0
     hist = [
         ("force-empty on/off in halt, level never rises", [["tank", 5], ["mqtt", "/settings/tank/force_empty", "ON"], ["mqtt", "/settings/tank/force_empty", "OFF"], ["run", 2 * 3600 + 60]], 2 * 3600 + 30),
+        ("initial fill, level settles exactly on too_low", [["tank", 4], ["mqtt", "/settings/tank/force_empty", "ON"], ["mqtt", "/settings/tank/force_empty", "OFF"], ["run", 12], ["tank", 7], ["run", 12], ["tank", 10], ["run", 2 * 3600 + 120]], 24 + 2 * 3600 + 30),
         ("eco, level stuck in low", [["tank", 50], ["mqtt", "/settings/mode", "eco"], ["run", 100], ["tank", 22], ["run", 6 * 3600 + 120]], 6 * 3600 + 30),
         ("force-empty on/off in halt, level rises above too_low then sticks in low", [["tank", 5], ["mqtt", "/settings/tank/force_empty", "ON"], ["mqtt", "/settings/tank/force_empty", "OFF"], ["run", 30], ["tank", 14], ["run", 6 * 3600 + 120]], 30 + 6 * 3600 + 15),
         ("force-empty on/off in halt, level in low then drops below too_low", [["tank", 5], ["mqtt", "/settings/tank/force_empty", "ON"], ["mqtt", "/settings/tank/force_empty", "OFF"], ["run", 30], ["tank", 14], ["run", 600], ["tank", 3], ["run", 120], ["tank", 14], ["run", 60]], 700),
